@@ -130,6 +130,19 @@ def c09c(tree, ob):
         # for item in list(queue): ... must empty the queue afterwards
         clears = [c for c in calls_in(fv.func) if pm('self._tx_pend_start.clear()', c) is not None] + \
                  [c for c in calls_in(loop) if pm('self._tx_pend_start.remove($x)', c) is not None]
+        # the queue swapped for a fresh empty list (possibly in a tuple assignment) is emptied too
+        for n in walk_local(fv.func):
+            if isinstance(n, ast.Assign):
+                for tgt in n.targets:
+                    pairs = list(zip(tgt.elts, n.value.elts)) if isinstance(tgt, ast.Tuple) and isinstance(n.value, ast.Tuple) and len(tgt.elts) == len(n.value.elts) else [(tgt, n.value)]
+                    for (t, v) in pairs:
+                        if src(t) == 'self._tx_pend_start' and (pm('[]', v) is not None or pm('list()', v) is not None):
+                            clears.append(n)
+        # what is iterated must then be the old queue content
+        if clears and isinstance(loop.iter, ast.Name):
+            itv = fv.reaching_defs(loop.iter.id, loop)
+            if not any(isinstance(v, norm._Unpack) or (v is not None and 'self._tx_pend_start' in src(v)) for (_s, v) in itv):
+                clears = []
         if not clears:
             ob.violate(SESS, fv.qual, src(loop.iter), 'flushed bundles stay in the pending queue', loop)
             return
@@ -356,3 +369,14 @@ def c09h(tree, ob):
                    'once SESS_TERM was sent or answered the remaining segments of the transfer in progress are never sent, so it never completes and the session stays half-open', send)
     else:
         ob.site(SESS, send, 'continuing an active transfer does not depend on _in_term')
+    # the pump that pulls the next segment must keep running while terminating
+    for item in cls.body:
+        if not isinstance(item, ast.FunctionDef) or item.name == '_process_queue_trigger':
+            continue
+        for call in method_calls(item, '_process_queue_trigger', 'self'):
+            fx = FuncView(tree, SESS, 'ContactHandler.' + item.name)
+            if fx.has(call, 'self._in_term', False):
+                ob.violate(SESS, fx.qual, '{} under not self._in_term'.format(src(call)), 'the queue pump is not re-armed while terminating: the next segment of a transfer in progress is never '
+                           'pulled, so the transfer stalls and the session stays half-open', call)
+            else:
+                ob.site(SESS, call, item.name + ' re-arms the pump regardless of termination')
